@@ -1,7 +1,7 @@
 (* C15 — liquidity removal requires a matured, unexpired, unconsumed unlock request. *)
-From Coq Require Import ZArith List Bool.
+From Coq Require Import ZArith List Bool Lia.
 From Sif Require Import Base.Outcome Base.Store Base.Bank Model.ClpCalc Model.ClpTypes Model.ClpState Model.ClpMsgs
-  Proofs.ClpInv Proofs.ClpUnits Proofs.UnlockProofs.
+  Proofs.ClpInv Proofs.ClpUnits Proofs.UnlockProofs Proofs.UnlockHist.
 Import ListNotations.
 Local Open Scope Z_scope.
 
@@ -63,6 +63,41 @@ Theorem C15_request_bound : forall s sg a u s',
     lp_unlocks l' = us0 ++ [(cs_height s, u)] /\ lp_units l' = lp_units l0.
 Proof. exact unlock_spec. Qed.
 Print Assumptions C15_request_bound.
+
+(* ---- over histories: whatever transactions (accepted or rejected), blocks, administrator changes of the lock / cancel
+   periods (through 0 and back) and growth of providers' units (re-invested rewards) happen, in every state reached every
+   provider's outstanding requests are non-negative, were made at heights up to the current one, and add up to at most the
+   provider's units. Premises: the amounts of the messages are unsigned (they are sdk.Uint in the code); the start state
+   satisfies the invariant (the empty chain does: C15_initial). ---- *)
+Theorem C15_history : forall steps s, CInv s -> Forall step_ok steps -> CInv (fold_left hstep steps s).
+Proof. exact history_CInv. Qed.
+Print Assumptions C15_history.
+Theorem C15_outstanding_le_units : forall steps s a addr l,
+  CInv s -> Forall step_ok steps -> find_lp (fold_left hstep steps s) a addr = Some l ->
+  0 <= usum (lp_unlocks l) <= lp_units l /\ nonneg_units (lp_unlocks l).
+Proof. exact history_outstanding_le_units. Qed.
+Print Assumptions C15_outstanding_le_units.
+Theorem C15_initial : forall s, cs_lps s = [] -> cs_pools s = [] -> CInv s.
+Proof. exact CInv_initial. Qed.
+Print Assumptions C15_initial.
+
+(* a history that requests, waits, lets the administrator set the lock period to 0 and back, and removes *)
+Example C15_history_example :
+  let s := mkClp (mkBank [(10, [(0, 9000000000000000000000); (1, 9000000000000000000000)]);
+                          (11, [(0, 9000000000000000000000); (1, 9000000000000000000000)])] [])
+        [] [] [] 0 [] [] 5 (mkCP 0 3000000000000000 [] 2 10 [(0, 7); (1, 7)] [10] 0 false) in
+  let steps := [HTx 1000 (MCreatePool 10 1 5000000000000000000000 7000000000000000000000);
+                HTx 1000 (MAddLiquidity 11 1 3000000000000000000 4200000000000000000);
+                HTx 1000 (MUnlock 11 1 2000000000000000000); HNextBlock; HNextBlock;
+                HSetParams (mkCP 0 3000000000000000 [] 0 10 [(0, 7); (1, 7)] [10] 0 false);
+                HTx 1000 (MRemoveLiquidityUnits 11 1 1000000000000000000);
+                HSetParams (mkCP 0 3000000000000000 [] 2 10 [(0, 7); (1, 7)] [10] 0 false);
+                HTx 1000 (MRemoveLiquidityUnits 11 1 500000000000000000)] in
+  CInv s /\ Forall step_ok steps /\
+  option_map (fun l => (lp_units l, usum (lp_unlocks l))) (find_lp (fold_left hstep steps s) 1 11) = Some (1500000000000000000, 500000000000000000).
+Proof.
+  cbv zeta. split; [apply CInv_initial; reflexivity|]. split; [repeat constructor; cbn; lia|]. vm_compute. reflexivity.
+Qed.
 
 Example C15_example :
   use_unlocked false 10 5 [(2, 30); (5, 40); (7, 50)] 60 = Ok ([(2, 0); (5, 10); (7, 50)], [(5, 10); (7, 50)]) /\
